@@ -505,7 +505,7 @@ namespace Givaro {
         //write(std::cout << "B:", B) << std::endl;
         //_domain.write(std::cout << "lB:", lB) << "^" << degA-degB+1 << std::endl;
         //   _domain.pow(m, lB, degA.value()-degB.value()+1);
-        dom_power(m, lB, degA.value()-degB.value()+1,_domain);
+        _domain.assign(m, _domain.one);
         //_domain.write(std::cout << "m:", m) << std::endl;
         for (; degB<= degR; )
         {
@@ -519,6 +519,7 @@ namespace Givaro {
             for (long j=0; j<d; ++j)
                 _domain.mulin (R[j], lB);
             _domain.assign(R[degR.value()],_domain.zero);
+            _domain.mulin(m, lB);
             degree(degR, R);
         }
         R.resize((size_t)degR.value()+1);
